@@ -250,7 +250,7 @@ def check_case(ctx, case):
         hist = []
         for i in range(case["length"]):
             op = c09.random_op(rng, M, cls, ids)
-            if model.classify(M, cls, op) == "must-raise":
+            if model.classify(M, cls, op) in ("must-raise", "skip"):
                 continue
             st, _ = model.apply_real(g, op)
             kind = model.classify(M, cls, op)
